@@ -8,6 +8,7 @@ budget="${1:-90}"; shift
 repo="${VERIF_REPO:-/repo}"
 cd "$(dirname "$0")/.."
 ids="$@"; [ -z "$ids" ] && ids=$(ls seeded)
+export VERIF_EVIDENCE_DIR="${VERIF_EVIDENCE_DIR:-$(cd "$(dirname "$0")/.." && pwd)/.cache/evidence-scratch}"
 for id in $ids; do
   prop=$(python3 -c "import json;print(json.load(open('seeded/$id/meta.json'))['property'])")
   if [ -n "$(git -C "$repo" status --porcelain --untracked-files=no)" ]; then echo "$id: repository not clean"; exit 9; fi
